@@ -130,13 +130,24 @@ class LinEnc(nn.Module):
         return self.l(x.reshape(x.shape[0], -1))
 
 
+class MlpEnc(nn.Module):
+    """context encoder built from the library's MLP with several hidden layers"""
+
+    def __init__(self, i, o):
+        super().__init__()
+        self.net = nets.MLP([i], [o], [4, 5, 3], activation=torch.tanh)
+
+    def forward(self, x):
+        return self.net(x.reshape(x.shape[0], -1))
+
+
 def _cdn(c):
     n = int(np.prod(c["shape"]))
-    enc = None if c["encoder"] == "identity" else LinEnc(3, 2 * n)
+    enc = None if c["encoder"] == "identity" else (LinEnc(3, 2 * n) if c["encoder"] == "linear" else MlpEnc(3, 2 * n))
     return D.ConditionalDiagonalNormal(c["shape"], context_encoder=enc)
 
 
-reg(DSubject("ConditionalDiagonalNormal", {"shape": SHAPES, "encoder": ["identity", "linear"]}, _cdn, lambda c: c["shape"],
+reg(DSubject("ConditionalDiagonalNormal", {"shape": SHAPES, "encoder": ["identity", "linear", "mlp"]}, _cdn, lambda c: c["shape"],
              ctx_shape=lambda c: (2 * int(np.prod(c["shape"])),) if c["encoder"] == "identity" else (3,), patterns=("init", "pat1"), has_mean=True, needs_context=True))
 
 
@@ -180,6 +191,9 @@ def _flow(c):
     elif c["context"] == "embedded":
         ctxdim = 2
         emb = Emb(3, 2)
+    elif c["context"] == "embedded_mlp":
+        ctxdim = 2
+        emb = MlpEnc(3, 2)
     tr = c["transform"]
     if tr == "ar_affine":
         t = T.CompositeTransform([T.MaskedAffineAutoregressiveTransform(f, 5, context_features=ctxdim, num_blocks=1), T.ReversePermutation(f),
@@ -214,7 +228,7 @@ def _flow_valid(c):
     return True
 
 
-reg(DSubject("Flow", {"transform": ["ar_affine", "coupling_rq", "lu_leaky", "inverse_ar"], "features": [2, 1, 3], "base": ["standard", "conditional", "diag"], "context": ["raw", None, "embedded"]},
+reg(DSubject("Flow", {"transform": ["ar_affine", "coupling_rq", "lu_leaky", "inverse_ar"], "features": [2, 1, 3], "base": ["standard", "conditional", "diag"], "context": ["raw", None, "embedded", "embedded_mlp"]},
              _flow, lambda c: (c["features"],), ctx_shape=lambda c: None if c["context"] is None else ((2,) if c["context"] == "raw" else (3,)), is_flow=True, valid=_flow_valid))
 
 
